@@ -41,7 +41,7 @@ LABELS = {
 
 def r1234_writer(ctx, chk):
     f = ctx.func(SAVE)
-    sx = SymX(ctx, f, inline_depth=2).run()      # helpers are judged by their content
+    sx = SymX(ctx, f, inline_depth=3).run()      # helpers (also generators / local functions) are judged by their content
     loops = [l for l in sx.loops.values() if l.kind == "for"]
     res_param, fname_param = ("v", f.params[0]), ("v", f.params[1])
     if len(loops) != 1:
@@ -58,7 +58,22 @@ def r1234_writer(ctx, chk):
             construct="save_results iteration")
     name_t = simp(("idx", ("elem", L.id), C(0)))
     entry_t = simp(("idx", ("elem", L.id), C(1)))
-    writes = [e for e in L.effects if e[1] == "call" and e[2][0] == "mcall" and e[2][2] == "write"]
+    raw = [e for e in L.effects if e[1] == "call" and e[2][0] == "mcall" and e[2][2] in ("write", "writelines")]
+    writes = []
+    for cond, kind, call in raw:
+        if call[2] == "write":
+            writes.append((cond, kind, call))
+        elif call[3] and call[3][0][0] == "list":
+            # writelines(<list of lines>): one pseudo write per line
+            for item in call[3][0][1]:
+                writes.append((cond, kind, ("mcall", call[1], "write", (item,), ())))
+        else:
+            chk.undecided("C16.1", where, "writelines() argument `%s` is not a statically known list of lines" % show(call[3][0] if call[3] else None)[:100])
+            return
+    n_label_lines = sum(1 for _, _, call in writes if call[3] and call[3][0][0] == "fstr" and is_const(call[3][0][1][0]) and ":" in str(call[3][0][1][0][1]))
+    if n_label_lines < 5:
+        chk.undecided("C16.1", where, "only %d 'label : value' lines recognised among %d writes: the report writer is not in a recognised form" % (n_label_lines, len(writes)))
+        return
     seen = {}
     file_obj = None
     for cond, _, call in writes:
